@@ -3,7 +3,7 @@
     lines of naturals. The parser is Gallina so that the extracted run and the
     in-Coq [vm_compute] run share it. *)
 From MB Require Import Model.Framework Model.Validate Model.Thresholds Model.FFI Model.Sim.
-From MB Require Model.Codec.Base64 Model.Codec.Bincode.
+From MB Require Model.Codec.Base64 Model.Codec.Bincode Model.Codec.V1.
 Open Scope N_scope.
 
 Definition parser (A : Type) := list N -> option (A * list N).
@@ -309,7 +309,7 @@ Definition run_sim (l : list N) : list (list N) :=
 
 (** entry point: tag 1 = framework case, 2 = validation case, 3 = sampling
     case, 4 = transition-vector case, 5-8 = codec cases, 9 = FFI case,
-    10 = simulator case *)
+    10 = simulator case, 11 = legacy v1 parser case *)
 Definition run_wire (l : list N) : list (list N) :=
   match l with
   | 1 :: rest =>
@@ -326,5 +326,6 @@ Definition run_wire (l : list N) : list (list N) :=
   | 8 :: rest => run_de rest
   | 9 :: rest => run_ffi rest
   | 10 :: rest => run_sim rest
+  | 11 :: rest => [V1.run_v1 rest]
   | _ => [[98]]
   end.
